@@ -26,8 +26,9 @@ pub fn generate(scope: &str, name: &str, seed: u64, k: u64, rng: &mut Rng, tier:
         }
         "pipe" => {
             let p = match rng.below(10) {
-                0..=3 => Profile::small(),
-                4..=6 => Profile::maint_heavy(),
+                0..=2 => Profile::small(),
+                3..=4 => Profile::maint_heavy(),
+                5..=6 => Profile::fleet_heavy(),
                 _ => Profile::medium(),
             };
             let inst = gen_instance(rng, &p);
